@@ -103,6 +103,51 @@ REF_SPECIALS = [
 ]
 
 
+def comment_inputs():
+    """block comments of every length 0..17 at four positions, with steps after them: the closing `-]` falls on
+    every offset modulo 8 (and, with the placement perturbation, on every address modulo 8)"""
+    out = []
+    for pre in ("", "a", "Mix ", "Mix @a{1}. "):
+        for n in range(18):
+            body = ("c" * n) if n % 3 else ("é" * (n // 2) + " " * (n % 2))
+            out.append(pre + "[- " + body + " -] then @b{2%g}.\n\nBake ~{10%min} in the #oven.\n")
+    out += ["[- a - ] b -] tail @x{1}\n", "[- never closed @a{1}\n\nstep two\n", "a [- one -][- two -] b [--] c [-] d\n",
+            "Mix. [- over\ntwo lines -] @a{1}\n[- second -]\n\n@b{2} -- line comment -] [- x\n@c{3} -] @d{4}\n",
+            "-- [- in a line comment\n@a{1} -] @b{2}\n", "@a{1 [- inside braces -] %g} and #pot [- c -]{}\n"]
+    return out
+
+
+def cold_pools():
+    """pools for the cold-start thread rounds: one pool per code-point group; every punctuation / space character
+    of the group once on its own between single-word components (CJK and Latin spellings), then four long inputs
+    holding all of them.  -> list of (group name, [texts], number of characters)"""
+    import unicodedata
+    groups = [("general punctuation 2010-2027", range(0x2010, 0x2028)), ("general punctuation 2030-205E", range(0x2030, 0x205F)),
+              ("CJK punctuation 3001-303F", range(0x3001, 0x3040)),
+              ("fullwidth FF01-FF65", list(range(0xFF01, 0xFF10)) + list(range(0xFF1A, 0xFF21)) + list(range(0xFF3B, 0xFF41)) + list(range(0xFF5B, 0xFF66))),
+              ("supplemental punctuation 2E00-2E4F", range(0x2E00, 0x2E50)),
+              ("spaces", list(range(0x2000, 0x200B)) + [0xA0, 0x1680, 0x202F, 0x205F, 0x3000]),
+              ("latin-1 00A1-00BF", range(0xA1, 0xC0))]
+    named = set()
+    for _, r in groups:
+        named.update(r)
+    rest = [c for c in range(0x100, 0x10000) if c not in named and not (0xD800 <= c < 0xE000)
+            and unicodedata.category(chr(c))[0] in "PZ" and unicodedata.category(chr(c)) not in ("Zl", "Zp")]
+    half = len(rest) // 2
+    groups += [("other BMP punctuation (first half)", rest[:half]), ("other BMP punctuation (second half)", rest[half:])]
+    pools = []
+    for name, r in groups:
+        chars = [chr(c) for c in r]
+        texts = []
+        for i, ch in enumerate(chars):
+            texts.append(("@酱油%s@糖\n" if i % 2 == 0 else "@thing%sthen @salt\n") % ch)
+        for k in range(4):
+            rot = chars[k * len(chars) // 4:] + chars[:k * len(chars) // 4]
+            texts.append(" ".join("@酱油%s@糖" % ch for ch in rot) + "\n")
+        pools.append((name, texts, len(chars)))
+    return pools
+
+
 def with_refs(text, rng):
     """a generated recipe with one or two recipe references spliced in as an extra step"""
     refs = []
@@ -123,7 +168,10 @@ def make_inputs(tier, rng):
     full = pc.SIGMA_CORE + pc.SIGMA_MORE
     rnd = ["".join(rng.choice(full) for _ in range(rng.randint(1, 14))) for _ in range(n)]
     corpus = [unhx(c.split(" ")[0]) for c in common.load_corpus(PID)]
-    return list(dict.fromkeys(corpus + TABLE_SPECIALS + REF_SPECIALS + SHORT + g + bad + rnd)), {
+    cm = comment_inputs()
+    return list(dict.fromkeys(corpus + TABLE_SPECIALS + REF_SPECIALS + cm + SHORT + g + bad + rnd)), {
+        "block_comment_specials": len(cm),
+        "block_comment_close_offsets_mod8": sorted({t.encode("utf-8").find(b"-]") % 8 for t in cm if "-]" in t}),
         "grec": len(g), "grec_with_recipe_refs": sum(1 for t in g if "@@" in t), "mutations": len(bad),
         "short_random": len(rnd), "fixed": len(TABLE_SPECIALS) + len(REF_SPECIALS) + len(SHORT), "corpus": len(corpus)}
 
@@ -375,6 +423,90 @@ def run(rep, tier, seed):
     stats["distinct_recipe_reference_names"] = len(ref_names)
     stats["ambient_files_created"] = len(envs["A"]["files"])
 
+    # buffer placement: every reference call again with the text at 9 consecutive offsets of a larger buffer (all
+    # 8 residues of the start address modulo 8), from the middle of a longer String and behind a stripped BOM.
+    # The result may depend on the text, not on where its bytes live.
+    pl = common.run_lines(exe, [case_line(*k) for k in keys], env={"HIST_MODE": "place"}, tag="c18place")
+    n_place_bad = 0
+    n_place_vs_alone = 0
+    place_variants = 0
+    residues = 8
+    seen_inputs = set()
+    for k, l in zip(keys, pl):
+        base, nvar, nbad, first, nres = l.split(" ")
+        place_variants += int(nvar)
+        residues = min(residues, int(nres))
+        if int(nbad) == 0 and base != universe[k]:
+            # all placements agree with each other but not with the call alone: an effect of the earlier calls of
+            # this long-running process, which the fresh / history passes report with a replay that reproduces it
+            n_place_vs_alone += 1
+            continue
+        if int(nbad) > 0:
+            n_place_bad += int(nbad)
+            if (k[1], k[0]) in seen_inputs or len(seen_inputs) >= 12:
+                continue
+            seen_inputs.add((k[1], k[0]))
+            diff = None
+            try:
+                t = run_file(exe, [case_line(*k)], "place", env={"HIST_FULL": "1"})[0].split("\t")
+                if len(t) == 2:
+                    a, b = t[0].split(" ", 1), t[1].split(" ", 1)
+                    d = first_diff(b[1], a[1])
+                    diff = {"at": d["at"], b[0]: d["history"], a[0]: d["fresh"]}
+            except common.Broken:
+                pass
+            hits.append((k[1], "op %s gives another result when the same text lies elsewhere in memory (%s of %s placements "
+                               "differ from offset 0, first: %s = placement@address mod 8)" % (k[0], nbad, nvar, first),
+                         {"mode": "placement", "case": case_line(*k), "input": k[1], "input_hex": hx(k[1]), "op": k[0],
+                          "ext": k[2][0], "conv": k[2][1], "placements_differing": int(nbad), "first_differing": first,
+                          "offset0": base, "alone_in_own_process": universe[k], "diff": diff}))
+    stats["placement_calls"] = place_variants
+    stats["placement_mismatches"] = n_place_bad
+    stats["placement_runs_differing_from_call_alone"] = n_place_vs_alone
+    stats["placement_address_residues_mod8"] = residues
+
+    # cold start: a new process, 16 threads lined up by a spinning barrier before every input, all parsing inputs
+    # with punctuation / space characters that this process has never lexed; one code-point group per process,
+    # several processes per group; compared with the same call alone in a process of its own
+    cold = cold_pools()
+    cold_cfg = CONFIGS[0]
+    cold_keys = list(dict.fromkeys(("p", t, cold_cfg) for _, texts, _ in cold for t in texts))
+    cold_ref = dict(zip(cold_keys, common.run_lines(exe, [case_line(*k) for k in cold_keys], env={"HIST_MODE": "spawn"},
+                                                    shards=16, tag="c18coldref")))
+    cold_repeats = 3 if quick else 10
+
+    def cold_round(arg):
+        (name, texts, nchars), rep_i = arg
+        return run_file(exe, [case_line("p", t, cold_cfg) for t in texts], "cold",
+                        env={"HIST_THREADS": 16, "HIST_EXT": cold_cfg[0], "HIST_CONV": cold_cfg[1]})
+
+    cold_jobs = [(g, i) for i in range(cold_repeats) for g in cold]
+    with ThreadPoolExecutor(max_workers=1) as ex:        # one 16-thread process at a time: the threads must run together
+        cold_outs = list(ex.map(cold_round, cold_jobs))
+    cold_calls = cold_bad = 0
+    for ((name, texts, nchars), rep_i), out in zip(cold_jobs, cold_outs):
+        for t, line in zip(texts, out):
+            alone, nobs, nbad, first = line.split(" ")
+            cold_calls += int(nobs)
+            k = ("p", t, cold_cfg)
+            if int(nbad) > 0 or alone != cold_ref[k]:
+                cold_bad += max(1, int(nbad))
+                if sum(1 for h in hits if h[2].get("mode") == "cold") >= 6:
+                    continue
+                hits.append((t, "cold start: %s of %s threads that met this input together, first in their process, return "
+                                "something else than the same call alone (%s, process %d)" % (nbad, nobs, name, rep_i),
+                             {"mode": "cold", "group": name, "pool": [case_line("p", x, cold_cfg) for x in texts],
+                              "threads": 16, "input": t, "input_hex": hx(t), "op": "p", "ext": cold_cfg[0], "conv": cold_cfg[1],
+                              "codepoints": ["U+%04X" % ord(c) for c in t if ord(c) > 127 and c not in "酱油糖"][:8],
+                              "alone_in_own_process": cold_ref[k], "after_the_round": alone, "concurrent": first,
+                              "note": "a race with a window of nanoseconds, once per character and process: the replay "
+                                      "repeats the round up to 40 times"}))
+    stats["cold_start_processes"] = len(cold_jobs)
+    stats["cold_start_calls"] = cold_calls
+    stats["cold_start_mismatches"] = cold_bad
+    stats["cold_start_characters"] = sum(n for _, _, n in cold)
+    stats["cold_start_groups"] = [name for name, _, _ in cold]
+
     def check_history(h, what):
         out = run_file(exe, [case_line(*k) for k in h], "hist")
         bad = [i for i, (k, d) in enumerate(zip(h, out)) if d != universe[k]]
@@ -490,7 +622,7 @@ def run(rep, tier, seed):
                           "LazyLock<FractionLookupTable> (src/quantity.rs 633-634), probed hash maps (convert/mod.rs "
                           "246-256, event_consumer.rs 106-111, 444-500); the parse function is a Section variable; "
                           "memory-level interleavings, Send/Sync soundness and std::sync::LazyLock are not modelled")
-    calls = stats["repeat_calls"] + stats["history_calls"] + thread_parses + len(keys) + amb_calls
+    calls = stats["repeat_calls"] + stats["history_calls"] + thread_parses + len(keys) + amb_calls + place_variants + cold_calls
     rep.coverage.update({
         "evaluations": calls + len(keys), "distinct_nontrivial": distinct_results,
         "rule": "exploration in support of the proof, not a proof about schedules: (i) every input 3x in a row on one "
@@ -502,7 +634,10 @@ def run(rep, tier, seed):
                 "converter+parser in a process of its own (%d reference processes), and those again with fresh parsers "
                 "in 16 long-running processes; (iv) ambient perturbation: the reference calls again, each alone in a new process "
                 "started in a freshly created working directory holding <name>.cook for every recipe reference of the inputs "
-                "with LANG/LC_ALL/TZ/HOME/COOKLANG_*/RUST_LOG changed, and in an empty directory with other values; inputs: generated recipes, one-token mutations, short random strings, fixed "
+                "with LANG/LC_ALL/TZ/HOME/COOKLANG_*/RUST_LOG changed, and in an empty directory with other values; (v) buffer placement: every reference call with the text at 9 consecutive offsets of a larger buffer, "
+                "inside a longer String and behind a stripped BOM; (vi) cold start: new processes in which 16 threads, lined up "
+                "by a spinning barrier, together meet inputs with punctuation/space characters the process never lexed (one "
+                "code-point group per process); inputs: generated recipes, one-token mutations, short random strings, fixed "
                 "specials; distinct_nontrivial = distinct canonical results among the reference evaluations"
                 % (len(rep_hist), n_hist, hist_len, len(CONFIGS), len(jobs), n_threads, iters, len(keys)),
         "exhaustive": False,
@@ -588,6 +723,19 @@ def _replay(rp):
             shutil.rmtree(root, ignore_errors=True)
         print("baseline (cwd /verif): %s  perturbed: %s" % (a, b))
         return 0 if a == b else 1
+    if r.get("mode") == "placement":
+        out = run_file(exe, [r["case"]], "place")[0].split(" ")
+        print("placements differing from offset 0: %s of %s (%s)" % (out[2], out[1], out[3]))
+        return 1 if int(out[2]) else 0
+    if r.get("mode") == "cold":
+        bad = 0
+        for i in range(40):
+            out = run_file(exe, r["pool"], "cold", env={"HIST_THREADS": r["threads"], "HIST_EXT": r["ext"], "HIST_CONV": r["conv"]})
+            bad = sum(int(l.split(" ")[2]) for l in out)
+            if bad:
+                break
+        print("cold-start rounds run: %d, differing concurrent results in the last: %d" % (i + 1, bad))
+        return 1 if bad else 0
     if r.get("mode") == "process":
         a = run_file(exe, [r["case"]], "spawn")[0]
         b = run_file(exe, [r["case"]], "spawn")[0]
